@@ -31,6 +31,12 @@ def run(ctx):
     ctx.explain("E-FREELIST.term: the dynamic terminal manager's gc writes the free list it built back to its state "
                 "(freed terminal slots are reusable by the retry).")
     efreelist.check_terminal_gc(ctx, F)
+    ctx.explain("E-FREELIST.term.link: the dynamic terminal store's free list, interpreted: gc's sweep closure links each dead slot in front "
+                "of the local head (4 -> 2 -> 7, no self-loop), the retain predicate keeps exactly the terminals whose count is not 1, "
+                "get_edge pops the head for a new value (count 2, id entered in the table) and answers OutOfMemory exactly at the "
+                "end of the store.")
+    ntl = efreelist.check_terminal_links(ctx, F)
+    ctx.floor("E-FREELIST.term.link", "interpreted terminal free-list situations", ntl, 7)
     elin.check_forget(ctx, F)
     ctx.explain("E-DBG: no side effect (atomic read-modify-write, store, container mutation, assignment) is evaluated inside a "
                 "debug assertion; with debug assertions off it would not happen (225 debug-only blocks inspected).")
